@@ -67,6 +67,14 @@ func newRPCPlanVisitorFederation(config rpcPlanVisitorConfig) *rpcPlanVisitorFed
 		resolverFields:         make([]resolverField, 0),
 		fieldResolverAncestors: newStack[int](0),
 		fieldPath:              ast.Path{}.WithFieldNameItem([]byte("result")),
+		// Fields selected outside of an entity fragment (e.g. a __typename directly below _entities)
+		// belong to no entity call. The messages they are collected in exist from the start, exactly
+		// as LeaveInlineFragment leaves them behind, and not only after the first entity fragment.
+		planInfo: planningInfo{
+			currentRequestMessage:    &RPCMessage{},
+			currentResponseMessage:   &RPCMessage{},
+			responseMessageAncestors: []*RPCMessage{},
+		},
 	}
 
 	walker.RegisterDocumentVisitor(visitor)
